@@ -109,28 +109,20 @@ func (w *world) verifyTx(h *hist, t *txProg, upTo uint64, fail bool) bool {
 		case "gwp":
 			e := v.getWithPrefix(r.prefix, r.neq, r.filters)
 			if d := differs(r.out, e); d != "" {
-				// classes K05b / K05d: a pending write of the tx was among the entries the lookup looked at
-				// (returned: K05b; skipped by the filters: K05d): nothing is recorded in the read-set
+				// class K05b: the lookup was answered by a pending write of the tx: nothing is recorded in the read-set
 				class := ""
-				for k, ow := range v.own {
-					kb := []byte(k)
-					if !bytes.HasPrefix(kb, r.prefix) || (len(r.neq) > 0 && bytes.Compare(kb, r.neq) <= 0) {
-						continue
-					}
-					switch {
-					case r.out.status == stFound && r.out.isOwn && bytes.Equal(kb, r.out.key):
-						class = kPrefixOwnFirst
-					case class == "" && filtered(ow.e, r.filters) && (r.out.status != stFound || bytes.Compare(kb, r.out.key) < 0):
-						class = kPrefixOwnSkipped
-					}
+				if r.out.status == stFound && r.out.isOwn {
+					class = kPrefixOwnFirst
 				}
 				bad(r, class, "GetWithPrefix(%q, neq=%q, filters=%d) returns %s; the transaction observed %s (%s)", r.prefix, r.neq, r.filters, e, r.out, d)
 			}
 		case "del":
 			e := v.get(r.key, r.filters)
-			wantOK := e.status == stFound
+			wantOK := e.status == stFound && !(e.isOwn && e.ow.e.Deleted)
 			if r.out.err != "" {
 				bad(r, "", "Delete(%q): unexpected error %s", r.key, r.out.err)
+			} else if e.isOwn && e.alsoMiss {
+				// own deleted / expired entry: whether the lookup inside Delete sees it is not pinned (see Assumptions)
 			} else if gotOK := r.out.status == stFound; gotOK != wantOK {
 				bad(r, "", "Delete(%q) finds %s; for the transaction Delete returned found=%v", r.key, e, gotOK)
 			}
